@@ -35,6 +35,36 @@ Section C15.
       matmul RE n m p a b = Ok (to_rows RE n p (fun i j => sum (fun k => rmul (a i k) (b k j)) m)).
   Proof. exact (matmul_def A Wt rO rI radd rmul rsub ropp rinv isz skipz ofZ absw w0 wgt wge wmul wrecip Rth). Qed.
 
+  (* (1b) operands with more than two dimensions (flat, row-major): np.dot pairs the last axis of a
+     with the second-to-last of b for ALL leading positions of a and ALL stacks of b; matmul pairs the
+     stacks by broadcasting; a scalar operand of dot multiplies every element from its own side.
+     Each element of the result is the sum of products over that index pattern. *)
+  Theorem C15_dot_nd_def : forall PA Ln QB M (fa fb : nat -> A),
+      (0 < Ln)%nat ->
+      nd_dot RE PA Ln QB M fa fb =
+      Ok (map (fun t => let p := Nat.div t (QB * M) in
+                        let q := Nat.modulo (Nat.div t M) QB in
+                        let m := Nat.modulo t M in
+                        sum (fun l => rmul (fa (p * Ln + l)%nat) (fb (q * Ln * M + l * M + m)%nat)) Ln)
+              (seq 0 (PA * QB * M))).
+  Proof. exact (nd_dot_def A Wt rO rI radd rmul rsub ropp rinv isz skipz ofZ absw w0 wgt wge wmul wrecip Rth). Qed.
+
+  Theorem C15_matmul_nd_def : forall SA SB n Ln p (fa fb : nat -> A),
+      (0 < Ln)%nat ->
+      nd_matmul RE SA SB n Ln p fa fb =
+      Ok (map (fun t => let s := Nat.div t (n * p) in
+                        let i := Nat.modulo (Nat.div t p) n in
+                        let j := Nat.modulo t p in
+                        let mi := unravel (bshape SA SB) s in
+                        sum (fun l => rmul (fa (ravel_b SA mi * n * Ln + i * Ln + l)%nat)
+                                           (fb (ravel_b SB mi * Ln * p + l * p + j)%nat)) Ln)
+              (seq 0 (prodn (bshape SA SB) * n * p))).
+  Proof. exact (nd_matmul_def A Wt rO rI radd rmul rsub ropp rinv isz skipz ofZ absw w0 wgt wge wmul wrecip Rth). Qed.
+
+  Theorem C15_dot_scalar_def : forall lft (sc : A) cnt (fa : nat -> A),
+      nd_scale RE lft sc cnt fa = Ok (map (fun t => if lft then rmul sc (fa t) else rmul (fa t) sc) (seq 0 cnt)).
+  Proof. intros. apply nd_scale_def. Qed.
+
   (* (2) _lubksb solves a.x = b for every size and EVERY right-hand side, given the
      decomposition invariant of ludcmp (idx = in-range exchanges with rows at or below the
      diagonal, L.U = P.a).  No condition on b: the shortcut skips only true zeros (Hskip). *)
@@ -73,6 +103,9 @@ Section C15.
 End C15.
 Print Assumptions C15_dot_def.
 Print Assumptions C15_matmul_def.
+Print Assumptions C15_dot_nd_def.
+Print Assumptions C15_matmul_nd_def.
+Print Assumptions C15_dot_scalar_def.
 Print Assumptions C15_lubksb.
 Print Assumptions C15_solve_partial.
 Print Assumptions C15_invab_partial.
